@@ -113,8 +113,17 @@ func (w *World) Stream(kind string, ss grpc.ServerStream) error {
 	tag := tagOf(ss.Context())
 	r := w.Recs[tag]
 	if r == nil {
+		// a handler invocation nobody asked for: behave like an ordinary handler
+		// that reads its stream to the end (so that it shows up as held state)
 		w.Stray = append(w.Stray, "stream:"+kind+":"+tag)
-		return nil
+		for {
+			if err := ss.RecvMsg(new(Msg)); err != nil {
+				if err == io.EOF {
+					return nil
+				}
+				return err
+			}
+		}
 	}
 	r.HStarts++
 	r.HCtx = ss.Context()
@@ -292,6 +301,7 @@ func CRecvOne(r *Rec, cs grpc.ClientStream) error {
 	m := new(Msg)
 	if err := cs.RecvMsg(m); err != nil {
 		r.CErr = err
+		r.CTrailer = cs.Trailer() // permitted once RecvMsg has returned an error
 		return err
 	}
 	r.CRecv = append(r.CRecv, string(m.Value))
@@ -316,6 +326,9 @@ var MsgSize int
 // Pad extends s to MsgSize bytes with filler that depends on s, so that two
 // different messages never share content.
 func Pad(s string) string {
+	if MsgSize < 0 {
+		return "" // messages that encode to zero bytes
+	}
 	if len(s) >= MsgSize {
 		return s
 	}
